@@ -24,7 +24,7 @@ func init() {
 			"the with-expressions of the sandboxed include itself are written in the outer template and evaluated with outer permissions",
 			"macro calls count as function calls for the policy check (observed behaviour), so macro names used inside the sandbox are allowed functions",
 		},
-		quick: 22*10*2*4*2 + 24000, thorough: 22*10*2*4*2 + 100000, minQuick: 3000, minThorough: 30000,
+		quick: 22*10*2*4*2 + 24000, thorough: 22*10*2*4*2 + 400000, minQuick: 3000, minThorough: 60000,
 	}})
 }
 
